@@ -104,7 +104,7 @@ function makeEraser (prefix) {
   const esc = prefix.replace(/[.*+?^${}()|[\]\\]/g, '\\$&')
   const tempRe = new RegExp('^__datadog_' + esc + '_\\d+$')
   const isTemp = n => n && n.type === 'Identifier' && tempRe.test(n.name)
-  const stats = { hooks: 0, seqs: 0, guards: 0, undispatch: 0, lets: 0, prologue: 0, spreads: 0, leftover: [] }
+  const stats = { seqsNoHook: 0, hooks: 0, seqs: 0, guards: 0, undispatch: 0, lets: 0, prologue: 0, spreads: 0, leftover: [] }
   const litEq = (a, b) => a.type === 'Literal' && b.type === 'Literal' && Object.is(litKey(a), litKey(b))
 
   class Env {
@@ -171,6 +171,9 @@ function makeEraser (prefix) {
     for (let i = 0; i < k; i++) env.set(ex[i].left.name, ex[i].right)
     const last = ex[n - 1]
     stats.seqs++
+    let hasHook = false
+    walk(node, x => { if (x.__hook) hasHook = true })
+    if (!hasHook) stats.seqsNoHook++
     if (last.type === 'ConditionalExpression' && last.test.type === 'BinaryExpression' && last.test.operator === '==' && isTemp(last.test.left) &&
         last.test.right.type === 'Literal' && last.test.right.value === null && last.consequent.type === 'Identifier' && last.consequent.name === 'undefined') {
       const g = last.test.left.name
